@@ -269,12 +269,13 @@ class Model(object):
         # TODO: Check if this can be done all-at-once for computational speed-up
         if isinstance(x,Samples):
             out = np.zeros((func_range_geometry.par_dim, x.Ns))
-            # Recursively apply func to each sample
+            # Recursively apply func to each sample (in the representation the
+            # sample collection holds: parameters or function values)
             for idx, item in enumerate(x):
                 out[:,idx] = self._apply_func(func,
                                               func_range_geometry,
                                               func_domain_geometry,
-                                              item, is_par=True,
+                                              item, is_par=x.is_par,
                                               **kwargs)
             return Samples(out, geometry=func_range_geometry)
         
